@@ -88,7 +88,7 @@ Proof.
     + destruct (run_tests fns fuel r stk) as [rs1 sk1 s1| | |] eqn:E; try discriminate. inversion H; subst.
       destruct (IH _ _ _ _ E) as [A B]. split; [exact A|]. simpl. f_equal. exact B.
     + destruct (iexec fns fuel (sh_body sh) (fresh_world stk)) as [c w| | |]; try discriminate.
-      destruct (run_tests fns fuel r (w_stk w)) as [rs1 sk1 s1| | |] eqn:E; try discriminate. inversion H; subst.
+      destruct (run_tests fns fuel r (truncate (length stk) (w_stk w))) as [rs1 sk1 s1| | |] eqn:E; try discriminate. inversion H; subst.
       destruct (IH _ _ _ _ E) as [A B]. split; [simpl; f_equal; exact A|exact B].
 Qed.
 
